@@ -594,3 +594,15 @@ def cand_yaml(scn):
 
 
 extra_shrinkers = (cand_docs, cand_yaml)
+
+
+def preload() -> None:
+    """Imported once by the worker before it forks: children start warm."""
+    import _pytest.config  # noqa: F401
+    import flask  # noqa: F401
+    import pytest  # noqa: F401
+
+    import openfisca_core.tools.test_runner  # noqa: F401
+    import openfisca_web_api.app  # noqa: F401
+
+    from . import c20_yaml  # noqa: F401
